@@ -151,13 +151,17 @@ type Violation struct {
 	Disc   string `json:"disc"` // discriminator for known-finding signatures
 	Step   int    `json:"step"`
 	Detail string `json:"detail"`
+	// Set is the key of the set a fixed-point violation is about (when there is one).
+	Set string `json:"set,omitempty"`
 }
 
 func (v Violation) Sig() string { return v.Check + "|" + v.Disc }
 
 // Sim is one simulated run.
 type Sim struct {
-	Seed  uint64
+	// Unpaused: sets whose pause the premise phase lifted (flags profile).
+	Unpaused []string
+	Seed     uint64
 	Cfg   *Config
 	Store *Store
 	rng   *PRNG
@@ -236,6 +240,15 @@ func (s *Sim) TraceHash() uint64 {
 		h.Write([]byte{'\n'})
 	}
 	return h.Sum64()
+}
+
+// violateSet is violate for a violation that concerns one set.
+func (s *Sim) violateSet(setKey, prop, check, disc, detail string) {
+	n := len(s.Viol)
+	s.violate(prop, check, disc, detail)
+	if len(s.Viol) > n {
+		s.Viol[n].Set = setKey
+	}
 }
 
 func (s *Sim) violate(prop, check, disc, detail string) {
